@@ -284,8 +284,14 @@ def text_diff(a, b, where_fn):
         i = only_a[0]
         wk, wn = where_fn(la, i)
         ta = _tokens(la[i])
-        if any(_tokens(lb[k]) == ta for k in only_b):
-            return 'token-order', wk, wn, small
+        for k in only_b:
+            if _tokens(lb[k]) == ta:
+                # show where the two token sequences part
+                xa, xb = la[i].split(), lb[k].split()
+                j = next((n for n in range(min(len(xa), len(xb))) if xa[n] != xb[n]), 0)
+                small = ['token %d of %d' % (j, len(xa)), ' '.join(xa[max(0, j - 2):j + 8])[:400],
+                         ' '.join(xb[max(0, j - 2):j + 8])[:400]] + small[:6]
+                return 'token-order', wk, wn, small
         return 'content', wk, wn, small
     wk, wn = where_fn(lb, only_b[0])
     return 'extra-lines', wk, wn, small
@@ -471,7 +477,34 @@ def isolate(case, lay, ref_snap, ctx, rel, res):
     return 'unattributed', None
 
 
+def subject_fingerprint():
+    """(path, mtime, size) of every module of the bfg9000 tree under test.  Other builders share
+    this machine and /repo is edited while checks run: a case whose runs saw two different
+    versions of the subject compares apples with oranges and must not be judged."""
+    out = []
+    top = os.path.join(core.REPO, 'bfg9000')
+    for d, ds, fs in os.walk(top):
+        ds[:] = [x for x in ds if x != '__pycache__']
+        for n in fs:
+            if n.endswith('.py'):
+                st = os.stat(os.path.join(d, n))
+                out.append((os.path.join(d, n), st.st_mtime_ns, st.st_size))
+    return sorted(out)
+
+
 def run_case(case):
+    before = subject_fingerprint()
+    res = _run_case(case)
+    after = subject_fingerprint()
+    if before != after:
+        changed = sorted({a[0] for a in set(before) ^ set(after)})
+        res = CaseResult()
+        res.inconclusive = 'bfg9000 tree under test changed while the case ran: ' + \
+            ', '.join(os.path.relpath(c, core.REPO) for c in changed[:4])
+    return res
+
+
+def _run_case(case):
     res = CaseResult()
     backend = case['backend']
     p = case['project']
